@@ -29,7 +29,7 @@ def plan(tier, seed):
 def conclude(agg):
     c = agg['counters']
     return [f'monitor counter {k} is zero' for k in ('nodes_yielded', 'lines_yielded', 'level_checks', 'fanin_sets', 'circuits_with_open_pin0', 'circuits_with_state',
-                                                     'lookups', 'lookups_2d', 'lookups_ge10', 'lookups_none', 'removed_lines')
+                                                     'lookups', 'lookups_2d', 'lookups_ge10', 'lookups_none', 'removed_lines', 'rewired_same_counts')
             if c.get(k, 0) == 0]
 
 
@@ -44,18 +44,39 @@ def check_traversals(case, ctx):
             l = rr.choice(list(c.lines))
             l.remove()
             ctx.count('removed_lines')
+    from ..ref_circuit import inv_circuit
+    bad = inv_circuit(c)
+    if bad:
+        ctx.violation('graph-precondition', f'after removing lines through the public API the graph is inconsistent ({bad[0]}); traversals of it are meaningless; {G.net_text(net)[:300]}', case)
+        ctx.case(case, False, key=[G.net_text(net), case['rseed'], case['nremove']])
+        return
+    if not traversal_checks(case, ctx, c, net, rr, first=True):
+        return
+    # a cached / stale order would show after an edit that keeps the node and line counts
+    with ctx.guard('traversal-raises', case):
+        what = graph.rewire_same_counts(c, rr)
+    if what:
+        ctx.count('rewired_same_counts')
+        if inv_circuit(c):
+            ctx.violation('graph-precondition', f'after {what} the graph is inconsistent: {inv_circuit(c)[0]}', case)
+            return
+        traversal_checks(case, ctx, c, net, rr, first=False)
+
+
+def traversal_checks(case, ctx, c, net, rr, first):
     nodes = list(c.nodes)
     N = len(nodes)
     lv = graph.levels(c)
     depth = max(lv.values()) if lv else 0
     has_open = any(any(x is None for x in n.ins) for n in nodes)
     has_state = any(graph.is_state(n) for n in nodes)
-    if any(len(n.ins) > 0 and n.ins[0] is None and any(x is not None for x in n.ins) for n in nodes if not graph.is_state(n)):
+    if first and any(len(n.ins) > 0 and n.ins[0] is None and any(x is not None for x in n.ins) for n in nodes if not graph.is_state(n)):
         ctx.count('circuits_with_open_pin0')
-    if has_state:
+    if has_state and first:
         ctx.count('circuits_with_state')
-    ctx.case(case, (has_open or has_state) and depth >= 3, key=[G.net_text(net), case['rseed'], case['nremove']])
-    txt = G.net_text(net)[:300]
+    if first:
+        ctx.case(case, (has_open or has_state) and depth >= 3, key=[G.net_text(net), case['rseed'], case['nremove']])
+    txt = G.net_text(net)[:300] + ('' if first else ' [after a count-preserving rewiring]')
 
     with ctx.guard('traversal-raises', case):
         # ---- forward order --------------------------------------------------------------------------
@@ -65,34 +86,34 @@ def check_traversals(case, ctx):
         for k, n in enumerate(seq):
             if n.index in pos:
                 ctx.violation('topological-order', f'node {n.index} ({n.name}) yielded twice; {txt}', case)
-                return
+                return False
             pos[n.index] = k
         if len(seq) != N:
             miss = [f'{n.index}:{n.kind}"{n.name}" ins={[None if x is None else x.index for x in n.ins]}' for n in nodes if n.index not in pos][:3]
             ctx.violation('topological-order', f'{N - len(seq)} of {N} nodes never yielded, e.g. {miss}; {txt}', case)
-            return
+            return False
         for l in c.lines:
             if not graph.is_source(l.reader) and pos[l.driver.index] > pos[l.reader.index]:
                 ctx.violation('topological-order', f'reader {l.reader.index} yielded before its combinational driver {l.driver.index}; {txt}', case)
-                return
+                return False
         src_pos = [pos[n.index] for n in nodes if graph.is_source(n)]
         non_pos = [pos[n.index] for n in nodes if not graph.is_source(n)]
         if src_pos and non_pos and max(src_pos) > min(non_pos):
             ctx.violation('topological-order', f'a non-source node is yielded before all inputs/state elements; {txt}', case)
-            return
+            return False
         if [n.index for n in c.topological_order()] != [n.index for n in seq]:
             ctx.violation('topological-order', f'a second traversal of the same circuit yields a different sequence; {txt}', case)
-            return
+            return False
         # ---- with level -------------------------------------------------------------------------------
         seql = list(c.topological_order_with_level())
         if [n.index for n, _ in seql] != [n.index for n in seq]:
             ctx.violation('topological-level', f'topological_order_with_level yields a different node sequence; {txt}', case)
-            return
+            return False
         for n, l in seql:
             ctx.count('level_checks')
             if int(l) != lv[n.index]:
                 ctx.violation('topological-level', f'node {n.index} ({n.kind} "{n.name}") reported level {l}, longest combinational distance from a source is {lv[n.index]}; {txt}', case)
-                return
+                return False
         # ---- line order -------------------------------------------------------------------------------
         lseq = list(c.topological_line_order())
         ctx.count('lines_yielded', len(lseq))
@@ -100,39 +121,39 @@ def check_traversals(case, ctx):
         for k, l in enumerate(lseq):
             if l.index in lpos:
                 ctx.violation('line-order', f'line {l.index} yielded twice; {txt}', case)
-                return
+                return False
             lpos[l.index] = k
         if len(lseq) != len(c.lines):
             ctx.violation('line-order', f'{len(c.lines) - len(lseq)} of {len(c.lines)} lines never yielded; {txt}', case)
-            return
+            return False
         for l in c.lines:
             if not graph.is_source(l.driver):
                 for x in graph.conn_ins(l.driver):
                     if lpos[x.index] > lpos[l.index]:
                         ctx.violation('line-order', f'line {l.index} yielded before line {x.index} that feeds its driver; {txt}', case)
-                        return
+                        return False
         # ---- reverse order ------------------------------------------------------------------------------
         rseq = list(c.reversed_topological_order())
         rpos = {}
         for k, n in enumerate(rseq):
             if n.index in rpos:
                 ctx.violation('reversed-order', f'node {n.index} yielded twice; {txt}', case)
-                return
+                return False
             rpos[n.index] = k
         if len(rseq) != N:
             miss = [f'{n.index}:{n.kind}"{n.name}" outs={[None if x is None else x.index for x in n.outs]}' for n in nodes if n.index not in rpos][:3]
             ctx.violation('reversed-order', f'{N - len(rseq)} of {N} nodes never yielded, e.g. {miss}; {txt}', case)
-            return
+            return False
         for l in c.lines:
             if not graph.is_state(l.driver) and rpos[l.reader.index] > rpos[l.driver.index]:
                 ctx.violation('reversed-order', f'driver {l.driver.index} yielded before its reader {l.reader.index}; {txt}', case)
-                return
+                return False
         sink = lambda n: graph.is_state(n) or not graph.conn_outs(n)
         sp = [rpos[n.index] for n in nodes if sink(n)]
         np_ = [rpos[n.index] for n in nodes if not sink(n)]
         if sp and np_ and max(sp) > min(np_):
             ctx.violation('reversed-order', f'a node with readers is yielded before all sinks/state elements; {txt}', case)
-            return
+            return False
         # ---- fan-in ----------------------------------------------------------------------------------------
         for _ in range(case['nfanin']):
             k = rr.choice([1, 1, 2, 3])
@@ -142,20 +163,21 @@ def check_traversals(case, ctx):
             gi = [n.index for n in got]
             if len(set(gi)) != len(gi):
                 ctx.violation('fanin', f'fanin yields a node twice for origins {[o.index for o in origins]}; {txt}', case)
-                return
+                return False
             must, may = fanin_sets(origins)
             if not must <= set(gi):
                 ctx.violation('fanin', f'fanin({[o.index for o in origins]}) misses nodes {sorted(must - set(gi))[:5]} that have a combinational path to an origin; {txt}', case)
-                return
+                return False
             if not set(gi) <= may:
                 ctx.violation('fanin', f'fanin({[o.index for o in origins]}) yields nodes {sorted(set(gi) - may)[:5]} without any path to an origin; {txt}', case)
-                return
+                return False
             fp = {i: k2 for k2, i in enumerate(gi)}
             for l in c.lines:
                 if l.driver.index in fp and l.reader.index in fp and not graph.is_state(l.driver) and fp[l.reader.index] > fp[l.driver.index]:
                     ctx.violation('fanin', f'fanin order is not reverse-topological: driver {l.driver.index} before reader {l.reader.index}; {txt}', case)
-                    return
+                    return False
     ctx.sample({'netlist': txt, 'removed_lines': case['nremove'], 'nodes': N, 'depth': depth})
+    return True
 
 
 def fanin_sets(origins):
@@ -293,7 +315,7 @@ def check_names(case, ctx):
 
 
 def run(spec, ctx):
-    feats_all = ['unconn_in', 'unconn_out', 'ff_no_d', 'out_read', 'wiring', 'consts']
+    feats_all = ['unconn_in', 'unconn_out', 'ff_no_d', 'out_read', 'wiring', 'consts', 'floating']
     for i in range(spec['n']):
         rng = random.Random(f'C17/{spec["seed"]}/{spec["shard"]}/{i}')
         feats = [f for f in feats_all if rng.random() < 0.4]
